@@ -88,6 +88,10 @@ def has_ref(t):
     return t == "pvref" or (isinstance(t, tuple) and any(has_ref(x) for x in t[1:] if x is not None))
 
 
+def has_pv(t):
+    return t == "pv" or (isinstance(t, tuple) and any(has_pv(x) for x in t[1:] if x is not None))
+
+
 def ind(lines, n=2):
     return [" " * n + ln for ln in lines]
 
@@ -300,7 +304,12 @@ class MethodTr:
     def pv_of(self, base_expr, env):
         """PV value text of an expression denoting a PriorityValue (value or reference)"""
         if not isinstance(base_expr, ast.Name):
-            raise Unsupported("attribute of a non-name")
+            x, t = self.pure(base_expr, env)       # e.g. `head[0]`; staleness is checked at the names inside
+            if t == "pvref":
+                return f"(PosPQ.pvAt {env.s} {self.atom(x)})"
+            if t == "pv":
+                return self.atom(x)
+            raise Unsupported(f"attribute of a {t}")
         v = self.lookup(base_expr.id, env)
         if v.ty == "pvref":
             if v.sep != env.sep:
@@ -319,6 +328,8 @@ class MethodTr:
             v = self.lookup(e.id, env)
             if has_ref(v.ty) and v.sep != env.sep:
                 raise Unsupported(f"`{e.id}` holds references into the heap array, which was restructured since")
+            if has_pv(v.ty) and v.wep is not None and v.wep != env.wep:
+                raise Unsupported(f"`{e.id}` holds a PriorityValue read before a later in-place write")
             return v.lean, v.ty
         if isinstance(e, ast.Attribute):
             if is_self_attr(e) and not self.m.pv_mode:
@@ -330,6 +341,19 @@ class MethodTr:
                 f, ty = PV_FIELDS[e.attr]
                 return f"{self.pv_of(e.value, env)}.{f}", ty
             raise Unsupported(f"attribute .{e.attr}")
+        if isinstance(e, ast.Subscript) and isinstance(e.slice, ast.Constant) and isinstance(e.slice.value, int) \
+                and not isinstance(e.slice.value, bool):
+            x, tx = self.pure(e.value, env)
+            k = e.slice.value
+            if isinstance(tx, tuple) and tx[0] == "tuple":
+                n = len(tx) - 1
+                if k < 0:
+                    k += n
+                if not 0 <= k < n:
+                    raise Unsupported("tuple index out of range")
+                proj = ".2" * k + (".1" if k < n - 1 else "")
+                return f"{self.atom(x)}{proj}", tx[1 + k]
+            raise Unsupported(f"subscript of a {tx}")
         if isinstance(e, ast.Tuple):
             parts = [self.pure(x, env) for x in e.elts]
             return "(" + ", ".join(p[0] for p in parts) + ")", ("tuple",) + tuple(p[1] for p in parts)
@@ -343,23 +367,13 @@ class MethodTr:
                     raise Unsupported("list literal with elements of different types")
             return "[" + ", ".join(p[0] for p in parts) + "]", ("list", "nat" if ty == "num" else ty)
         if isinstance(e, ast.IfExp):
-            nt = self.narrow_test(e.test, env)
-            if nt and len(nt[1]) == 1:
-                kind, (name,) = nt
-                v = self.lookup(name, env)
-                nm = self.fresh(name)
-                env2 = env.copy()
-                env2.vars[name] = Var(nm, v.ty[1], v.decl, v.sep, v.wep)
-                a_none, a_some = (e.body, e.orelse) if kind == "is_none" else (e.orelse, e.body)
-                x, tx = self.pure(a_none, env)
-                y, ty_ = self.pure(a_some, env2)
-                x, y, t = self.join_branches(x, tx, y, ty_)
-                return f"(match {v.lean} with | none => {x} | some {nm} => {y})", t
-            c = self.cond(e.test, env)
-            x, tx = self.pure(e.body, env)
-            y, ty_ = self.pure(e.orelse, env)
-            x, y, t = self.join_branches(x, tx, y, ty_)
-            return f"(if {c} then {x} else {y})", t
+            node = self.decide_tree(e.test, env,
+                                    lambda e2: ("leaf", self.pure(e.body, e2)),
+                                    lambda e2: ("leaf", self.pure(e.orelse, e2)))
+            to = self.join_types(self.leaf_types(node))
+            if to == "num":
+                return self.render_expr(node, "num"), "num"
+            return self.render_expr(node, to), to
         if isinstance(e, ast.BinOp) and isinstance(e.op, (ast.Add, ast.Sub, ast.Mult)):
             a, ta = self.pure(e.left, env)
             b, tb = self.pure(e.right, env)
@@ -524,23 +538,95 @@ class MethodTr:
             return f"{a} {sym} {b}"
         return self.truth(e, env)
 
-    def narrow_test(self, test, env):
-        """('is_none', [x]) | ('not_none', [x, y, …]) when the test only compares Optional locals with None"""
-        def one(t):
-            if isinstance(t, ast.Compare) and len(t.ops) == 1 and isinstance(t.ops[0], (ast.Is, ast.IsNot)) \
-                    and isinstance(t.left, ast.Name) and isinstance(t.comparators[0], ast.Constant) \
-                    and t.comparators[0].value is None and t.left.id in env.vars \
-                    and isinstance(env.vars[t.left.id].ty, tuple) and env.vars[t.left.id].ty[0] == "opt":
-                return ("is_none" if isinstance(t.ops[0], ast.Is) else "not_none"), t.left.id
-            return None
-        o = one(test)
-        if o:
-            return o[0], [o[1]]
-        if isinstance(test, ast.BoolOp) and isinstance(test.op, ast.And):
-            parts = [one(v) for v in test.values]
-            if all(p and p[0] == "not_none" for p in parts) and len({p[1] for p in parts}) == len(parts):
-                return "not_none", [p[1] for p in parts]
+    def none_atom(self, t, env):
+        """(name, True) for `name is None`, (name, False) for `name is not None`, name an Optional local"""
+        if isinstance(t, ast.Compare) and len(t.ops) == 1 and isinstance(t.ops[0], (ast.Is, ast.IsNot)) \
+                and isinstance(t.left, ast.Name) and isinstance(t.comparators[0], ast.Constant) \
+                and t.comparators[0].value is None and t.left.id in env.vars \
+                and isinstance(env.vars[t.left.id].ty, tuple) and env.vars[t.left.id].ty[0] == "opt":
+            return t.left.id, isinstance(t.ops[0], ast.Is)
         return None
+
+    def has_narrowing(self, test, env):
+        """does the test compare an Optional local with None (possibly under not / and / or)?"""
+        if isinstance(test, ast.UnaryOp) and isinstance(test.op, ast.Not):
+            return self.has_narrowing(test.operand, env)
+        if isinstance(test, ast.BoolOp):
+            # a later operand may mention a name that only a preceding operand narrows
+            return any(self.none_atom_syntactic(v) for v in ast.walk(test))
+        return self.none_atom(test, env) is not None
+
+    @staticmethod
+    def none_atom_syntactic(t):
+        return isinstance(t, ast.Compare) and len(t.ops) == 1 and isinstance(t.ops[0], (ast.Is, ast.IsNot)) \
+            and isinstance(t.left, ast.Name) and isinstance(t.comparators[0], ast.Constant) \
+            and t.comparators[0].value is None
+
+    def decide_tree(self, test, env, T, F):
+        """Decision tree of a test, following Python's short-circuit evaluation; `T(env)` / `F(env)` build
+        the sub-tree of each outcome in the environment that holds there (an Optional local is narrowed
+        in the branch where it is known not to be None).
+        node = ("match", scrutinee, none-node, bound name, some-node) | ("if", prop, then, else) | ("leaf", x)"""
+        if isinstance(test, ast.UnaryOp) and isinstance(test.op, ast.Not):
+            return self.decide_tree(test.operand, env, F, T)
+        if isinstance(test, ast.BoolOp) and self.has_narrowing(test, env):
+            first, rest = test.values[0], test.values[1:]
+            rest_t = rest[0] if len(rest) == 1 else ast.BoolOp(test.op, rest)
+            if isinstance(test.op, ast.And):
+                return self.decide_tree(first, env, lambda e2: self.decide_tree(rest_t, e2, T, F), F)
+            return self.decide_tree(first, env, T, lambda e2: self.decide_tree(rest_t, e2, T, F))
+        atom = self.none_atom(test, env)
+        if atom:
+            name, is_none = atom
+            v = env.vars[name]
+            nm = self.fresh(name)
+            env2 = env.copy()
+            env2.vars[name] = Var(nm, v.ty[1], v.decl, v.sep, v.wep)
+            n_node = (T if is_none else F)(env)
+            s_node = (F if is_none else T)(env2)
+            return ("match", v.lean, n_node, nm, s_node)
+        c = self.cond(test, env)
+        return ("if", c, T(env), F(env))
+
+    def render_lines(self, node):
+        if node[0] == "leaf":
+            return node[1]
+        if node[0] == "match":
+            return ([f"match {node[1]} with", "| none =>"] + ind(self.render_lines(node[2]))
+                    + [f"| some {node[3]} =>"] + ind(self.render_lines(node[4])))
+        return [f"if {node[1]} then"] + ind(self.render_lines(node[2])) + ["else"] + ind(self.render_lines(node[3]))
+
+    def leaf_types(self, node):
+        if node[0] == "leaf":
+            return [node[1][1]]
+        if node[0] == "match":
+            return self.leaf_types(node[2]) + self.leaf_types(node[4])
+        return self.leaf_types(node[2]) + self.leaf_types(node[3])
+
+    def render_expr(self, node, to):
+        if node[0] == "leaf":
+            return self.coerce(node[1][0], node[1][1], to, "branch of a conditional expression")
+        if node[0] == "match":
+            return (f"(match {node[1]} with | none => {self.render_expr(node[2], to)} "
+                    f"| some {node[3]} => {self.render_expr(node[4], to)})")
+        return f"(if {node[1]} then {self.render_expr(node[2], to)} else {self.render_expr(node[3], to)})"
+
+    @staticmethod
+    def join_types(tys):
+        """the common type of the leaves of a conditional expression"""
+        base = [t for t in tys if t not in ("none", "num")]
+        opt = any(t == "none" or (isinstance(t, tuple) and t[0] == "opt") for t in tys)
+        inner = {t[1] if (isinstance(t, tuple) and t[0] == "opt") else t for t in base}
+        if len(inner) > 1:
+            if inner == {"nat", "int"}:
+                raise Unsupported("conditional expression mixing naturals and integers")
+            raise Unsupported(f"conditional expression with branches of types {sorted(map(str, inner))}")
+        if not inner:
+            if "none" in tys and "num" not in tys:
+                raise Unsupported("conditional expression that is always None")
+            return ("opt", "nat") if opt else "num"
+        t = inner.pop()
+        return ("opt", t) if opt else t
 
     # -- effectful expressions, continuation-passing
     def effectful(self, e):
@@ -730,7 +816,7 @@ class MethodTr:
                 known = "obj"      # placeholder of the first pass
             ty2 = decl = ("list", known)
         nm = self.fresh(name)
-        env.vars[name] = Var(nm, ty2, decl, env.sep if has_ref(ty2) else None, env.wep if ty2 == "pv" else None)
+        env.vars[name] = Var(nm, ty2, decl, env.sep if has_ref(ty2) else None, env.wep if has_pv(ty2) else None)
         return [f"let {nm} : {lean_ty(ty2)} := {text}"], env
 
     def assign_target(self, tgt, text, ty, env):
@@ -840,7 +926,8 @@ class MethodTr:
                 env2.vars.pop(name, None)
                 text = self.coerce(x, t, decl, f"`{name}`")
                 nm = self.fresh(name)
-                env2.vars[name] = Var(nm, decl, decl, env2.sep if has_ref(decl) else None, None)
+                env2.vars[name] = Var(nm, decl, decl, env2.sep if has_ref(decl) else None,
+                                       env2.wep if has_pv(decl) else None)
                 return [f"let {nm} : {lean_ty(decl)} := {text}"] + kk.fall(env2)
             return self.eval(st.value, env, kk, k)
         if isinstance(st, ast.AugAssign):
@@ -891,35 +978,68 @@ class MethodTr:
             and isinstance(t.left, ast.Name) and t.left.id in self.m.nat_asserts \
             and isinstance(t.comparators[0], ast.Constant) and t.comparators[0].value == 0
 
-    def stmt_if(self, st, env, kk):
-        nt = self.narrow_test(st.test, env)
-        if nt:
-            kind, names = nt
-
-            def some_branch(stmts):
-                def go(i, env2):
-                    if i == len(names):
-                        return self.block(stmts, env2, kk)
-                    name = names[i]
-                    v = env2.vars[name]
-                    nm = self.fresh(name)
-                    env3 = env2.copy()
-                    env3.vars[name] = Var(nm, v.ty[1], v.decl, v.sep, v.wep)
-                    return ([f"match {v.lean} with", "| none =>"] + ind(none_lines(env2))
-                            + [f"| some {nm} =>"] + ind(go(i + 1, env3)))
-                return go
-            if kind == "is_none":
-                def none_lines(env2):
-                    return self.block(st.body, env2, kk)
-                return some_branch(st.orelse)(0, env)
+    def simple_block(self, stmts):
+        """only assignments of side-effect-free values to local names (and nested ifs of the same kind)"""
+        for st in stmts:
+            if isinstance(st, ast.Pass):
+                continue
+            if isinstance(st, ast.Assign):
+                tg, val = st.targets, st.value
+            elif isinstance(st, (ast.AugAssign, ast.AnnAssign)):
+                tg, val = [st.target], st.value
+            elif isinstance(st, ast.If):
+                if self.effectful(st.test) or not self.simple_block(st.body) or not self.simple_block(st.orelse):
+                    return False
+                continue
             else:
-                def none_lines(env2):
-                    return self.block(st.orelse, env2, kk)
-                return some_branch(st.body)(0, env)
-        c = self.cond(st.test, env)
-        then = self.block(st.body, env, kk)
-        els = self.block(st.orelse, env, kk)
-        return [f"if {c} then"] + ind(then) + ["else"] + ind(els)
+                return False
+            if val is None or self.effectful(val) or not all(isinstance(x, ast.Name) for x in tg):
+                return False
+            if isinstance(st, ast.AnnAssign):
+                return False
+        return True
+
+    def stmt_if(self, st, env, kk):
+        if self.effectful(st.test):
+            raise Unsupported("if-test with side effects")
+        names = list(dict.fromkeys(self.assigned_names(st.body + st.orelse)))
+        if names and self.simple_block(st.body) and self.simple_block(st.orelse) \
+                and all(n in env.vars and n != "__yield__" for n in names):
+            # both branches only re-assign locals: one `let` per if (a join point), no duplicated continuation
+            def leaf(stmts):
+                def fall(env2):
+                    vals = [self.coerce(env2.vars[n].lean, env2.vars[n].ty, env2.vars[n].decl) for n in names]
+                    return [vals[0] if len(vals) == 1 else "(" + ", ".join(vals) + ")"]
+
+                def no(*_a):
+                    raise Unsupported("exit from a branch that only assigns locals")
+                return lambda env2: ("leaf", self.block(stmts, env2, K(fall, no, no, no, no)))
+            node = self.decide_tree(st.test, env, leaf(st.body), leaf(st.orelse))
+            decls = [env.vars[n].decl for n in names]
+            for d in decls:
+                if d == "num":
+                    raise Unsupported("re-assignment of an untyped number in a branch")
+            env2 = env.copy()
+            if len(names) == 1:
+                nm = self.fresh(names[0])
+                lines = [f"let {nm} : {lean_ty(decls[0])} :="] + ind(self.render_lines(node))
+                news = [nm]
+            else:
+                tn = self.fresh("t")
+                lines = [f"let {tn} : ({' × '.join(lean_ty(d) for d in decls)}) :="] + ind(self.render_lines(node))
+                news = []
+                for i, (n, d) in enumerate(zip(names, decls)):
+                    nm = self.fresh(n)
+                    proj = ".2" * i + (".1" if i < len(names) - 1 else "")
+                    lines.append(f"let {nm} : {lean_ty(d)} := {tn}{proj}")
+                    news.append(nm)
+            for n, nm, d in zip(names, news, decls):
+                env2.vars[n] = Var(nm, d, d, env.sep if has_ref(d) else None, env.wep if has_pv(d) else None)
+            return lines + kk.fall(env2)
+        node = self.decide_tree(st.test, env,
+                                lambda e2: ("leaf", self.block(st.body, e2, kk)),
+                                lambda e2: ("leaf", self.block(st.orelse, e2, kk)))
+        return self.render_lines(node)
 
     def stmt_try(self, st, env, kk):
         if st.orelse or st.finalbody or len(st.handlers) != 1:
@@ -1119,7 +1239,7 @@ class MethodTr:
         for n, nm in zip(carried, news):
             v = env.vars[n]
             env2.vars[n] = Var(nm, v.decl, v.decl, env.sep if has_ref(v.decl) else None,
-                               env.wep if v.decl == "pv" else None)
+                               env.wep if has_pv(v.decl) else None)
         env2.s = s1
         for t in targets:
             env2.vars.pop(t, None)
@@ -1145,7 +1265,7 @@ class MethodTr:
             if tgt.id == "_":
                 return [], env
             nm = self.fresh(tgt.id)
-            env.vars[tgt.id] = Var(nm, ty, ty, env.sep if has_ref(ty) else None, env.wep if ty == "pv" else None)
+            env.vars[tgt.id] = Var(nm, ty, ty, env.sep if has_ref(ty) else None, env.wep if has_pv(ty) else None)
             return [f"let {nm} : {lean_ty(ty)} := {text}"], env
         if isinstance(tgt, ast.Tuple) and isinstance(ty, tuple) and ty[0] == "tuple" and len(tgt.elts) == len(ty) - 1 == 2:
             lines = []
@@ -1158,6 +1278,10 @@ class MethodTr:
     def first_ref(self, tgt, ty, env):
         if isinstance(tgt, ast.Name) and ty == "pvref":
             return env.vars[tgt.id].lean
+        if isinstance(tgt, ast.Name) and isinstance(ty, tuple) and ty[0] == "tuple" and "pvref" in ty[1:] \
+                and tgt.id != "_":
+            k, n = ty[1:].index("pvref"), len(ty) - 1
+            return env.vars[tgt.id].lean + ".2" * k + (".1" if k < n - 1 else "")
         if isinstance(tgt, ast.Tuple):
             for t, et in zip(tgt.elts, ty[1:]):
                 if et == "pvref" and isinstance(t, ast.Name) and t.id != "_":
@@ -1210,7 +1334,7 @@ class MethodTr:
         env = Env()
         binders = ""
         for pn, pt, _ in m.params:
-            env.vars[pn] = Var(binder(pn), pt, pt, 0 if has_ref(pt) else None, 0 if pt == "pv" else None)
+            env.vars[pn] = Var(binder(pn), pt, pt, 0 if has_ref(pt) else None, 0 if has_pv(pt) else None)
             binders += f" ({binder(pn)} : {lean_ty(pt)})"
         if m.rand_direct:
             binders += " (rand : Rat)"
